@@ -7,6 +7,7 @@ package main
 import (
 	"fmt"
 	"os"
+	"time"
 	"go/types"
 	"net/textproto"
 	"sort"
@@ -115,6 +116,17 @@ func init() {
 			o := ex.newObject(pt.Elem(), ex.zero(pt.Elem()), "url:"+g)
 			o.Name = g
 			return TupleV{&Pointer{Obj: o}, &IfaceV{}}
+		},
+		"time.ParseDuration": func(ex *Exec, fn *ssa.Function, a []Value, fr *Frame) Value {
+			g, ok := ex.goString(a[0].(*StringV))
+			if !ok {
+				panic(unsupported("time.ParseDuration of a symbolic string"))
+			}
+			d, err := time.ParseDuration(g)
+			if err != nil {
+				return TupleV{ex.i64(0), ex.libError("time.ParseDuration")}
+			}
+			return TupleV{ex.i64(int64(d)), &IfaceV{}}
 		},
 		"math/rand.Uint32": func(ex *Exec, fn *ssa.Function, a []Value, fr *Frame) Value { return ex.freshVar("rand.Uint32", 32) },
 		"strconv.Atoi":      intrAtoi,
